@@ -12,7 +12,9 @@ registered built-in reaches the generic parser with the mode derived from the en
 except the reviewed bespoke parsers.
 
 Not decided: equivalence of spellings end-to-end (what each built-in does with the parsed
-options), the bespoke parsers of set/kill/typeset/getopts/the command line."""
+options), the bespoke parsers of set/kill/typeset/getopts/the command line beyond the clauses of
+R5, R7-R14 (R13: which arguments the short/long option functions claim, on a finite domain of
+sign prefixes; R14: the missing-option-argument error is decided by exhaustion alone)."""
 from engine import RuleSet
 import hirq as H
 import mirq as Q
@@ -2073,8 +2075,8 @@ def _split_claimers(F, driver):
     return mod, out
 
 
-@RS.rule('C20.R13', 'K-TABLE', 'the bespoke parsers that ask a short-option function and then a long-option function (typeset/export/readonly, '
-         'set, the shell command line): on every argument text over {-, +, other}^<=3 the two functions together claim (consume or reject) '
+@RS.rule('C20.R13', 'K-TABLE', 'the parsers that ask a short-option function and then a long-option function (typeset/export/readonly, '
+         'set, the shell command line, the generic built-in parser): on every argument text over {-, +, other}^<=3 the two functions together claim (consume or reject) '
          'every argument that begins with a sign - except the documented lone `-`, `+` and `--` - and claim no other argument: no '
          'malformed option (`-+x`, `+-p`) falls through to the operands')
 def r13(cx):
@@ -2146,9 +2148,34 @@ PLAIN_FETCH = [re.compile(r'Iterator>?::next$'), re.compile(r'Peekable::<.*>::(p
 OPTION_EMPTY = {'is_none': True, 'is_some': False}
 
 
-def _optarg_fetch(body, du, place):
-    """The call that produced the Option stored in `place` (moves, borrows and `?` followed), or None."""
-    return Q.value_source(body, du, {'cp': {'l': place['l']}})
+def _none_sources(body, du, local, depth=6):
+    """Where a `None` in the Option local can come from: the producing calls (moves, borrows and `?` followed; a local merged
+    from several branches is followed into each branch, `Some(..)` built in a branch cannot be None), 'literal-None' for an
+    explicit None, 'unknown' when the value cannot be traced."""
+    defs = du.defs.get(local, [])
+    if len(defs) == 1:
+        t = Q.value_source(body, du, {'cp': {'l': local}})
+        if t is not None:
+            return [t]
+    if not defs or depth == 0:
+        return ['unknown']
+    out = []
+    for blk, idx, node in defs:
+        if idx == 't':
+            out.append(node)
+            continue
+        if node['k'] != 'assign' or node['lhs'].get('p'):
+            out.append('unknown')
+            continue
+        rv = node['rv']
+        if rv['k'] == 'agg' and rv.get('ak') == 'adt' and rv.get('adt') == 'core::option::Option':
+            if rv.get('variant') != 'Some':
+                out.append('literal-None')
+        elif rv['k'] == 'use' and Q.operand_place(rv['o']) is not None and not Q.operand_place(rv['o']).get('p'):
+            out.extend(_none_sources(body, du, Q.operand_place(rv['o'])['l'], depth - 1))
+        else:
+            out.append('unknown')
+    return out
 
 
 def _always_true(F, body, du, o):
@@ -2178,24 +2205,41 @@ def _is_arg_fetch(F, body, du, t):
 
 
 def _missing_decided_by(F, body, blk, st):
-    """How the block constructing the `missing argument` error is reached -> (verdict, description).
+    """How the block constructing the `missing argument` error is reached -> (verdict, callee name, call).
     verdict 'exhausted': behind `None` of an unconditional fetch of the next argument (match / if-let / let-else / is_none /
-    ok_or / `?`); 'predicate': behind `None` of a fetch that looks at the argument (next_if, find, filter, ...);
-    'undecided': no test of a fetched Option decides it."""
+    ok_or / ok_or_else / `?`); 'predicate': behind `None` of a fetch that looks at the argument (next_if, find, filter, ...)
+    or of an explicit None; 'undecided': no test of a fetched Option decides it."""
     du = Q.DefUse(body)
     found = []
 
-    def note(t):
-        if t is None:
+    def note(b_, du_, sources):
+        """One emptiness test: exhausted when every way the Option can be None is an unconditional fetch."""
+        calls = [x for x in sources if isinstance(x, dict)]
+        if not sources or 'unknown' in sources:
             return
-        found.append(('exhausted' if _is_arg_fetch(F, body, du, t) else 'predicate', pp.callee(t).split(' [')[0], t))
+        bad = [x for x in calls if not _is_arg_fetch(F, b_, du_, x)]
+        if 'literal-None' in sources and not bad:
+            found.append(('predicate', 'an explicit None', calls[0] if calls else None))
+        elif bad:
+            found.append(('predicate', pp.callee(bad[0]).split(' [')[0], bad[0]))
+        elif calls:
+            found.append(('exhausted', pp.callee(calls[0]).split(' [')[0], calls[0]))
+
+    def of_operand(b_, du_, o):
+        pl = Q.operand_place(o)
+        if pl is None:
+            return []
+        org = du_.origin(o)
+        if org['k'] in ('ref', 'place') and not org['pl'].get('p'):
+            pl = org['pl']
+        return _none_sources(b_, du_, pl['l'])
 
     # `fetch.ok_or(Missing)` / `.ok_or_else(|| Missing)`: the error value is built before the test
     for b_, t in body.calls():
         if Q.callee_is(t, [re.compile(r'^core::option::Option::<T>::ok_or(::<.*>)?$')]) and len(t['a']) == 2:
             org = du.origin(t['a'][1])
             if org['k'] == 'agg' and org['rv'] is st['rv']:
-                note(Q.value_source(body, du, t['a'][0]))
+                note(body, du, of_operand(body, du, t['a'][0]))
     if '{closure#' in body.fn.rsplit('::', 1)[-1]:
         parent = F.bodies.get(body.fn.rsplit('::', 1)[0])
         if parent is not None:
@@ -2204,26 +2248,20 @@ def _missing_decided_by(F, body, blk, st):
                 if Q.callee_is(t, [re.compile(r'^core::option::Option::<T>::ok_or_else(::<.*>)?$')]) and len(t['a']) == 2:
                     org = pdu.origin(t['a'][1])
                     if org['k'] == 'agg' and org['rv'].get('ak') == 'closure' and org['rv'].get('def') == body.fn:
-                        src = Q.value_source(parent, pdu, t['a'][0])
-                        if src is not None:
-                            found.append(('exhausted' if _is_arg_fetch(F, parent, pdu, src) else 'predicate', pp.callee(src).split(' [')[0], src))
+                        note(parent, pdu, of_operand(parent, pdu, t['a'][0]))
     # tests that dominate the construction
     for org, lab, e in Q.implied_conditions(F, body, du, blk):
         org, lab = Q.peel_not(du, org, lab)
-        if org['k'] == 'discr' and lab == ('variant', 'None') and 'Option<' in str(org.get('ty')):
-            note(_optarg_fetch(body, du, org['pl']))
+        if org['k'] == 'discr' and lab == ('variant', 'None') and 'Option<' in str(org.get('ty')) and not org['pl'].get('p'):
+            note(body, du, _none_sources(body, du, org['pl']['l']))
         elif org['k'] == 'call' and org['t']['a']:
             nm = pp.callee(org['t']).split(' [')[0]
             m = re.match(r'^core::option::Option::<T>::(is_none|is_some)$', nm)
             if m and lab == ('bool', OPTION_EMPTY[m.group(1)]):
-                a0 = org['t']['a'][0]
-                o = du.origin(a0)
-                pl = o['pl'] if o['k'] in ('ref', 'place') else Q.operand_place(a0)
-                if pl is not None:
-                    note(_optarg_fetch(body, du, pl))
+                note(body, du, of_operand(body, du, org['t']['a'][0]))
     for want in ('exhausted', 'predicate'):
         for v, nm, t in found:
-            if v == want and (want == 'exhausted' or not any(v2 == 'exhausted' for v2, _, _ in found)):
+            if v == want:
                 return v, nm, t
     return 'undecided', None, None
 
@@ -2267,9 +2305,13 @@ def r14(cx):
                                                ' (%s at %s)' % (nm.split('::')[-1], body.loc(t)) if t is not None else ''))
             if verdict == 'exhausted':
                 continue
-            how = ('the next argument is fetched with %s, which looks at its text and answers None for an argument that is there'
-                   % nm.split('::')[-1].split('<')[0]) if verdict == 'predicate' else \
-                  'it is not reached behind `None` of an unconditional next()/peek() on the argument list'
+            if verdict == 'predicate' and nm == 'an explicit None':
+                how = 'a branch makes the option-argument an explicit None although the argument list may hold one'
+            elif verdict == 'predicate':
+                how = ('the next argument is fetched with %s, which looks at its text and answers None for an argument that is there'
+                       % nm.split('::')[-1].split('<')[0])
+            else:
+                how = 'it is not reached behind `None` of an unconditional next()/peek() on the argument list'
             cx.violation(body0.root, 'missing-argument-not-by-exhaustion:%s' % key[1], '%s: the error %s is reported although the argument list '
                          'may not be exhausted - %s. An option-argument given as the next argument must be taken whatever it looks like '
                          '(`--rcfile -rc` = `--rcfile=-rc`, `-o -x`, `-s -9`): with a predicate the separate spelling is rejected as '
@@ -2285,3 +2327,8 @@ def r14(cx):
 # --- explanation addendum (generated catalogue in DESIGN.md reads RS.explanation)
 RS.explanation += " Added later: ulimit's long names agree with the resource selected by the short letter (R1b); the cut of `--name=value` is measured in the text the user typed (R3b). the user manual's -x (--long) pairs are pairs of the option tables (R6). getopts keeps scanning a group after any letter without argument (R9). kill reads only unsigned decimals as signal numbers (R10)."
 RS.explanation += " Every integer parse of operand text in the built-ins, job IDs, signal names, traps and option parsing sits behind a digit test, rejects the sign afterwards, or is a reviewed sign-tolerant site - `trap '' +2`, `kill -l +2`, `kill -s +9`, `%+1` are not numbers (R11, inventory of 19 sites, 12 reviewed entries). The name compared with `sh` at start-up is arg0 with the login hyphen removed (R12)."
+RS.explanation += " The bespoke parsers that split option parsing between a short-option and a long-option function (typeset/export/readonly, set, the shell command line, and the generic parser itself) are evaluated on every argument text of length <= 3 over {-, +, other}: every argument beginning with a sign is claimed (consumed or rejected) by one of the two functions - except the documented lone `-`, `+` and `--` - and no other argument is, so a malformed option such as `-+x` cannot fall through to the operands (R13, 4 parsers x 2 functions x 40 texts). The `option-argument is missing` error of every option parser (generic parser, set, kill, getopts, command line: 7 sites) is decided by the end of the argument list alone, `None` of an unconditional next()/peek(), never by a fetch that inspects the text - `--rcfile -rc` is `--rcfile=-rc` (R14)."
+RS.assumptions.append('C20.R13: what neither option function of a split parser claims is what its driver hands to the operands (the drivers '
+                      'are listed in SPLIT_PARSERS; the option functions are found as the functions of the module the driver calls with the '
+                      'peekable argument list); texts longer than 3 characters or with other characters behave like their 3-character '
+                      'abstraction; a test of the text through a call without a model (bytes, char_indices, slicing) is not decided: exit 2')
